@@ -25,6 +25,9 @@ def slice_keys(n):
     return spell
 
 
+AT = ["/resolutions/10", "/a/b"]      # nested locations (a decoy collection with other content sits at the file root)
+
+
 def cases(tier, seed):
     rng = random.Random(seed)
     # (1) engines, exhaustive small scope: every store x every window x chunk sizes
@@ -67,7 +70,8 @@ def cases(tier, seed):
         chunk = [1, 2, 3, len(px) + 1][idx % 4]
         how = ["handle", "path", "uri"][idx % 3] if idx % 5 == 0 else "handle"
         for part in range(0, len(wins), 50):
-            yield "rq.api", {"n": n, "mode": mode, "px": px, "chunk": chunk, "open": how, "wins": wins[part:part + 50]}
+            yield "rq.api", {"n": n, "mode": mode, "px": px, "chunk": chunk, "open": how, "wins": wins[part:part + 50],
+                             **({"at": AT[idx % 2]} if idx % 4 == 1 else {})}
     # API on tables with several chromosomes (index space is what matters; the table must not)
     for name, table in gen.REPRESENTATIVE_TABLES.items():
         n = len(table)
@@ -77,7 +81,8 @@ def cases(tier, seed):
                 wins = list(gen.windows(n))
                 rng.shuffle(wins)
                 yield "rq.api", {"n": n, "mode": mode, "px": px, "chunk": rng.choice([1, 2, 10 ** 7]),
-                                 "open": rng.choice(["handle", "path", "uri"]), "wins": wins[:60], "table": table}
+                                 "open": rng.choice(["handle", "path", "uri"]), "wins": wins[:60], "table": table,
+                                 **({"at": AT[n % 2]} if mode == "square" else {})}
     # (4) slice spellings
     for n in ((3,) if tier == "quick" else (3, 4)):
         keys = slice_keys(n)
